@@ -1,14 +1,17 @@
 import TexelVerif.Drv.TT
+import TexelVerif.Drv.BookBuild
 /-! Line-protocol driver: one operation per stdin line, one canonical reply line.
     Imports model files only (no proofs, no Mathlib), so it links as a `lean_exe`. -/
 
 structure DrvState where
   tt : TT.Table := default
+  book : Drv.BookBuild.State := {}
 
 def dispatch (st : DrvState) (line : String) : DrvState × String :=
   let toks := (line.trimAscii.toString.splitOn " ").filter (· ≠ "")
   match toks with
   | "tt" :: args => let (t, o) := Drv.TT.step st.tt args; ({ st with tt := t }, o)
+  | "book" :: args => let (t, o) := Drv.BookBuild.step st.book args; ({ st with book := t }, o)
   | _ => (st, "bad-op")
 
 partial def loop (h : IO.FS.Stream) (out : IO.FS.Stream) (st : DrvState) : IO Unit := do
